@@ -19,6 +19,12 @@ theorem castF64_not_faithful : ¬ CastFaithful castF64 := by
   have := h 9007199254740992 9007199254740993 (by decide)
   revert this; decide
 
+/-- the hypothesis of the `_partial` theorems fails on the witness column -/
+theorem d20_not_faithful_on : ¬ CastFaithfulOn castF64 [9007199254740993, 9007199254740992, 9007199254740993] := by
+  intro h
+  have := h 9007199254740992 (by simp) 9007199254740993 (by simp) (by decide)
+  revert this; decide
+
 /-- … so three rows with the two distinct keys (2^53+1, 0), (2^53, 0) come back as ONE group of 3 rows. -/
 theorem d20_float_collapses_groups :
     groupbyCount .repaired [⟨castF64, [9007199254740993, 9007199254740992, 9007199254740993]⟩, ⟨id, [0, 0, 0]⟩] false =
